@@ -31,7 +31,7 @@ FUNCTIONS = [
 MUST_REACH = ["parse.IMAPClientCommand._p_mailbox", "user_server.IMAPUserServer.get_mailbox", "user_server.IMAPUserServer.folder_exists", "mbox.Mailbox.create", "mbox.Mailbox.delete", "mbox.Mailbox.rename"]
 BOUNDS = {
     "quick": {"name": "optional leading '/' + up to 3 components from {'..', '.', '', 'a', 'decoy', 'inbox'} (third component from {'..', 'a'}), written as atom / quoted / literal", "commands": "13 command kinds, one command (RENAME: both names)"},
-    "thorough": {"commands": "a preparatory CREATE of the same name, then the command"},
+    "thorough": {"name": "third component from {'..', 'a', 'decoy', '.'}", "commands": "also: a preparatory CREATE of the same name, then the command"},
 }
 SYMBOLIC = ["component selectors", "leading slash", "string form selector"]
 REALISED = ["all selectors (the name becomes command text): the decision tree enumerates them"]
@@ -139,11 +139,12 @@ def _confine(lead, n, c1, c2, c3, form):
     text = "".join(lines)
     check("SECRET" not in text, f"C09/{tag}/response_reveals_outside_content", name=name, text=text[:300])
     if kind in ("status", "select", "examine"):
-        inside_names = {"inbox", "a"}
-        canon = os.path.normpath(name).lstrip("/")
-        if canon.lower() not in inside_names:
+        # a name that denotes a place outside the mail root is never opened ("a/../x" denotes x, inside)
+        rel = name[1:] if name.startswith("/") and not name.startswith("//") else name
+        target = os.path.normpath(os.path.join(root, rel)) if not rel.startswith("/") else os.path.normpath(rel)
+        if not (target == root or target.startswith(root + "/")):
             ok_lines = [ln for ln in lines if ln.startswith("t1 OK")]
-            check(not ok_lines or not (".." in name or name.startswith("//")), f"C09/{tag}/command_on_outside_name_succeeded", name=name, lines=lines[:6])
+            check(not ok_lines, f"C09/{tag}/command_on_outside_name_succeeded", name=name, lines=lines[:6])
     w.shutdown()
 
 
@@ -153,9 +154,10 @@ def jobs(tier):
     js = []
     for kind in KINDS:
         for form in (0, 1, 2):
-            js.append({"name": f"confine[{kind},{['atom', 'quoted', 'literal'][form]}]", "fn": "confine", "params": {"kind": kind, "n3": 2 if q else 6, "form": form}, "timeout": T if q else 3000, "per_path": 120, "unblock": UNBLOCK})
+            js.append({"name": f"confine[{kind},{['atom', 'quoted', 'literal'][form]}]", "fn": "confine", "params": {"kind": kind, "n3": 2 if q else 4, "form": form}, "timeout": T if q else 3000, "per_path": 120, "unblock": UNBLOCK})
         if not q:
-            js.append({"name": f"confine[{kind},prep]", "fn": "confine", "params": {"kind": kind, "prep": True}, "timeout": T, "per_path": 120, "unblock": UNBLOCK})
+            for form in (0, 1, 2):
+                js.append({"name": f"confine[{kind},prep,{['atom', 'quoted', 'literal'][form]}]", "fn": "confine", "params": {"kind": kind, "prep": True, "n3": 2, "form": form}, "timeout": T, "per_path": 120, "unblock": UNBLOCK})
     return js
 
 
